@@ -327,6 +327,13 @@ func GenPlan(prop string, seed uint64) *Plan {
 		if g.p(0.15) {
 			p.Queue = 100 // the shipped default capacity: overflow under stalls
 		}
+		if g.p(0.5) {
+			// every second client keeps 2-3 commands outstanding and never retries, like the repository's client
+			if p.Knobs == nil {
+				p.Knobs = map[string]int{}
+			}
+			p.Knobs["pipeline"] = g.rng(2, 3)
+		}
 	}
 
 	faultFree := g.p(pr.faultFree)
